@@ -24,6 +24,45 @@ CLAIMS = {
         design='4/C19'),
 }
 
+CLAIMS.update({
+    'C18': dict(
+        text='Repository-specific path rules over the CFG of every fiber lock / condition-variable / thread method '
+             '(helpers inlined, literal mode arguments partially evaluated, loops unrolled once): R-WAITLOOP (state '
+             're-tested after every wake-up before it is written), R-NOTIFY (a freeing release notifies a queue '
+             'acquirers wait on), R-MODE (every acquire form leaves the lock state of the blocking form of its mode), '
+             'R-TRY (false => no state written, true => acquired), R-CV (unlock->park->lock, predicate loop, notify '
+             'reaches the queue, timed status from Erase), R-JOIN, R-FORWARD (wrappers forward to the same Impl '
+             'operation). These are necessary conditions of the std contracts; the behaviour over all fiber '
+             'schedules is not decided.',
+        technique='per-path typestate/effect rules over clang CFGs of the lock classes (LibTooling facts + python), '
+                  'with partial evaluation and helper inlining',
+        design='4/C18'),
+    'C09': dict(
+        text='R-ACCESSOR: forward refinement of the set of possible Result states along every CFG path of every '
+             'combinator strategy instantiation (WhenAll/Join, all policies and input forms); each terminating '
+             'accessor (Value/Error/Exception) must see exactly its state. Decides that no completion order can '
+             'reach an accessor on the wrong alternative; does not decide the moment or content of completion.',
+        technique='path-sensitive value-set refinement (typestate) over clang CFGs of all strategy instantiations',
+        design='4/C09'),
+    'C01': dict(
+        text='R-READY: every readiness predicate of the unique future API (Ready, Get() const&) is summarised into a '
+             'closed term over the completion word and evaluated on its three abstract states; it must be false on '
+             'Empty and on Callback. Decides "Ready() only once the Result can be read" structurally; the '
+             'exactly-once delivery over interleavings is not decided.',
+        technique='syntax-directed summaries of predicate bodies evaluated over the 3-state abstraction of the '
+                  'callback word',
+        design='4/C01'),
+    'C04': dict(
+        text='R-WORD/R-ORDER/R-CASKIND over every atomic access of the non-fault library in three configurations: '
+             'each site is classified into a role by (word, operation kind, class of the written value) and must be '
+             'admitted by the word protocol, carry at least the role minimum in the memory-order lattice (orders '
+             'passed through parameters are resolved at call sites), and weak CAS must sit in a retry loop. '
+             'Necessary conditions for race freedom (each row names the plain access that loses its only '
+             'happens-before edge); sufficiency is not decided.',
+        technique='site enumeration with constant-evaluated memory orders over typed AST + role table (lattice check)',
+        design='4/C04'),
+})
+
 NOT_YET = {}
 
 
